@@ -423,13 +423,52 @@ def bag_cases():
     return out
 
 
+CALLER_MUTATIONS = ("exp-in-place", "reverse", "sort", "append", "truncate", "clear")
+
+
+def _caller_mutates(lst, how):
+    """what a caller may do with a container a query HANDED to it (its own object from then on)"""
+    if how == "exp-in-place":
+        for i in range(len(lst)):
+            lst[i] = math.exp(min(50.0, lst[i]))
+    elif how == "reverse":
+        lst.reverse()
+    elif how == "sort":
+        lst.sort()
+    elif how == "append":
+        lst.append(0.0)
+    elif how == "truncate":
+        del lst[1:]
+    else:
+        lst.clear()
+
+
+def _after_caller_mutations(bag, n):
+    """history on ONE long-lived bag: the caller modifies IN PLACE what the last queries returned (the list of posteriors(), the
+    list of total_scores()) and asks the same bag again - a result handed to the caller must not alias the bag's state, so every
+    later answer is still about the hypotheses the bag holds (sum to 1, range, confidence = largest posterior).  A modification
+    the returned container does not support (e.g. an ndarray cannot be truncated) is skipped: it is the caller's step, not an
+    observation.  Returns the observations (post, conf, tconf, 0.0) after each modification."""
+    out = []
+    for how in CALLER_MUTATIONS:
+        for query in (bag.posteriors, bag.total_scores):
+            got = query()
+            try:
+                _caller_mutates(got, how)
+            except Exception:
+                pass
+        post = [float(math.exp(p)) for p in bag.posteriors()]
+        out.append((post, float(bag.confidence()), [float(bag.transcript_confidence("h%d" % i)) for i in range(n)], 0.0))
+    return out
+
+
 def _bag_case(item):
     from pero_ocr.decoding.bag_of_hypotheses import BagOfHypotheses
     (v, lm, scale), seed = item
     rng = random.Random(seed)
     n = len(v)
     rec = {"kind": "bag", "v": list(v), "lm": list(lm), "scale": "0" if scale == "none" else scale, "has_lm": scale != "none", "seed": seed,
-           "wide": False, "outcome": "ok", "post": [], "conf": 0, "tconf": [], "tabsent": 0, "sumdev": 0, "over": 0, "dshift": 0, "confdev": 0}
+           "wide": False, "mutated": list(CALLER_MUTATIONS), "outcome": "ok", "post": [], "conf": 0, "tconf": [], "tabsent": 0, "sumdev": 0, "over": 0, "dshift": 0, "confdev": 0}
     try:
         weight = {"none": 1.0, "0": 0.0, "half": 0.5, "1": 1.0, "2": 2.0}[scale]
         mixed = scale != "none" and seed % 3 == 0 and 9 in lm and any(x != 9 for x in lm)
@@ -459,6 +498,7 @@ def _bag_case(item):
                 bag.lm_weight = w2
                 p2 = [math.exp(p) for p in bag.posteriors()]
                 extra.append((p2, float(bag.confidence()), [float(bag.transcript_confidence("h%d" % i)) for i in range(n)], 0.0))
+        extra.extend(_after_caller_mutations(bag, n))
         post, conf, tconf, tabs = obs[0]
         obs_all = obs + extra
         rec["post"] = [_m6(p) for p in post]
@@ -547,7 +587,7 @@ def _wide_bag_case(seed):
     if rng.random() < 0.6:
         lms = [(-1.0 if x is None else x) for x in lms]            # every hypothesis has an LM score: the LM weight matters
     weight = rng.choice(WIDE_WEIGHTS)
-    rec = {"kind": "bag", "v": [1] * n, "lm": [1] * n, "scale": "0", "has_lm": False, "seed": seed, "wide": True,
+    rec = {"kind": "bag", "v": [1] * n, "lm": [1] * n, "scale": "0", "has_lm": False, "seed": seed, "wide": True, "mutated": list(CALLER_MUTATIONS),
            "vis": ["%.3f" % x for x in vis], "lms": [str(x) for x in lms], "weight": str(weight),
            "outcome": "ok", "post": [], "conf": 0, "tconf": [], "tabsent": 0, "sumdev": 0, "over": 0, "dshift": 0, "confdev": 0}
     try:
@@ -562,6 +602,7 @@ def _wide_bag_case(seed):
                 conf = float(bag.confidence())
                 tconf = [float(bag.transcript_confidence("h%d" % i)) for i in range(n)]
                 obs.append((post, conf, tconf, float(bag.transcript_confidence("not in the bag"))))
+            obs.extend(_after_caller_mutations(bag, n))
         post, conf, tconf, tabs = obs[0]
         allv = [x for o in obs for x in o[0] + [o[1]] + o[2] + [o[3]]]
         if any(x != x for x in allv):
@@ -753,6 +794,11 @@ def _what_line(tr):
 
 
 def _what_bag(tr):
+    return _what_bag0(tr) + ("; sumdev / over / confdev also cover the answers of the SAME bag after the caller modified in place the lists "
+                             "that posteriors() / total_scores() had returned to it (%s)" % ", ".join(tr["mutated"]) if tr.get("mutated") else "")
+
+
+def _what_bag0(tr):
     if tr.get("wide"):
         return "bag visual scores=%s (+ constant) lm scores=%s lm_weight=%s -> posteriors %s confidence %s sumdev=%s over=%s dshift=%s outcome=%s" % (
             tr["vis"], tr["lms"], tr["weight"], tr["post"], tr["conf"], tr["sumdev"], tr["over"], tr["dshift"], tr["outcome"])
